@@ -72,6 +72,9 @@ def id_sources(repo, rep):
         # carried identifier: table[table[ip, it], it - 1]
         if isinstance(v, ast.Subscript) and unparse(v.value) == table and isinstance(v.slice, ast.Tuple) and len(v.slice.elts) == 2:
             row, col = v.slice.elts
+            from ..astutil import resolve as _res
+            if isinstance(row, ast.Name):
+                row = _res(fi.node, row, before=n.lineno)      # local_id = part_ids[ip, it]
             tcol = t.slice.elts[1] if isinstance(t.slice, ast.Tuple) and len(t.slice.elts) == 2 else None
             ok = tcol is not None and unparse(col).replace(" ", "") == unparse(tcol).replace(" ", "") + "-1" and \
                 unparse(row) == unparse(t)
@@ -113,7 +116,7 @@ def sentinels(repo, rep):
     e, u = next(iter(empty)), next(iter(unmatched))
     # propagator: == unmatched -> new id ; != empty -> carry
     tests = [unparse(n.test).replace(" ", "") for n in ast.walk(p.node) if isinstance(n, ast.If)]
-    if not any(x.endswith(f"=={u}") for x in tests) or not any(x.endswith(f"!={e}") for x in tests):
+    if not any(x.endswith(f"=={u}") or x.endswith(f"!={u}") for x in tests) or not any(x.endswith(f"!={e}") or x.endswith(f"=={e}") for x in tests):
         rep.fail("R-C19-3", p.file, p.node.lineno, p.qualname, f"tests {tests}", f"propagation must branch on == {u} (new system) and != {e} (carry)")
     else:
         rep.ok("R-C19-3", f"{p.file} np_track_partitions", f"empty={e}, unmatched={u}", "same constants in matcher, propagator and _FillValue")
